@@ -87,13 +87,15 @@ def run_tlc(d, module, args, timeout=1800, heap="8g"):
     cmd = ["java", "-XX:+UseParallelGC", "-Xmx" + heap, "-Xss64m", "-cp", TLC_CP, "tlc2.TLC",
            "-metadir", os.path.join(d, "md")] + args + [module + ".tla"]
     t0 = time.time()
-    try:
-        p = subprocess.run(cmd, cwd=d, capture_output=True, text=True, timeout=timeout)
-    except subprocess.TimeoutExpired:
-        subprocess.run(["pkill", "-f", "tlc2.TL[C]"])
-        raise MachineryError("TLC timed out after %ds in %s" % (timeout, d))
-    open(os.path.join(d, "tlc.out"), "w").write(p.stdout + "\n--stderr--\n" + p.stderr)
-    return p.stdout, p.returncode, time.time() - t0
+    outp = os.path.join(d, "tlc.out")
+    with open(outp, "w") as fo:
+        try:
+            p = subprocess.run(cmd, cwd=d, stdout=fo, stderr=subprocess.STDOUT, timeout=timeout)
+        except subprocess.TimeoutExpired:
+            raise MachineryError("TLC timed out after %ds in %s" % (timeout, d))
+    if os.path.getsize(outp) > (1 << 30):
+        raise MachineryError("TLC output larger than 1 GiB in %s (bound the generator)" % d)
+    return open(outp).read(), p.returncode, time.time() - t0
 
 
 def tlc_stats(out):
@@ -293,6 +295,8 @@ def load_known():
         for tok in body.split():
             if tok.startswith("detail~"):
                 kf["detail"] = tok[len("detail~"):]
+            elif tok.startswith("pred~"):
+                kf["pred_re"] = tok[len("pred~"):]
             elif "=" in tok:
                 k, v = tok.split("=", 1)
                 if k == "feature":
@@ -308,6 +312,8 @@ def match_known(kfs, prop, viol, features):
         if kf.get("property") != prop:
             continue
         if kf.get("pred") and kf["pred"] != viol.get("pred"):
+            continue
+        if kf.get("pred_re") and not re.fullmatch(kf["pred_re"], viol.get("pred", "")):
             continue
         if any(f not in features for f in kf["features"]):
             continue
